@@ -32,6 +32,7 @@ type muxDelivery struct {
 }
 
 type muxCall struct {
+	publishStall  time.Duration // NATS: how long the publish of this request is held up by a congested path
 	id            int
 	caller        int
 	opid          string
@@ -429,6 +430,9 @@ func muxHarness(rc *RunCtx) {
 		if b != nil {
 			if bc := b.Conn(0); bc != nil && bc.StallUntil > s.Now() {
 				settle(bc.StallUntil - s.Now())
+			}
+			if bc := b.Conn(0); bc != nil && bc.ReadStallUntil > s.Now() {
+				settle(bc.ReadStallUntil - s.Now())
 			}
 		}
 		lastWritten = nil
